@@ -170,12 +170,8 @@ func buildMessage(md protoreflect.MessageDescriptor, s *Spec, fd protoreflect.Fi
 }
 
 // verdict: A accept, R reject (validation error), E anything else (constraint compilation / runtime error)
-func pvVerdict(msg *dynamicpb.Message) (byte, string) {
-	v, err := protovalidate.New()
-	if err != nil {
-		return 'E', "new: " + err.Error()
-	}
-	err = v.Validate(msg)
+func pvVerdict(v protovalidate.Validator, msg *dynamicpb.Message) (byte, string) {
+	err := v.Validate(msg)
 	if err == nil {
 		return 'A', ""
 	}
